@@ -4,8 +4,16 @@ Decided: in random() of both types, for each n, every table bit below 2^n is a *
 distinct bit of a fresh next_u64 draw* of rand::thread_rng (so every assignment can take both
 values and words do not share draws), every bit at or above 2^n is constant 0, the crate holds
 no static state, and the function exists only with the `rand` feature.
+  C19.seed  (who-may-construct + seed provenance) every explicitly seeded generator in the crate (SeedableRng::
+         seed_from_u64 / from_seed, <Rng>::new(state..)) is looked at: the seed operand is sliced backwards through
+         the body (copies, derefs, casts, arithmetic, call results).  A generator that is built per call or per
+         thread (not inside the initialiser of a process-wide static) from a seed whose sources are only
+         compile-time constants and write-once statics (OnceLock / LazyLock / immutable static) replays one
+         stream: two calls, or two threads, return the same tables -> violation.  Entropy sources (thread_rng,
+         OsRng, from_entropy, getrandom) discharge the site; anything else is left undecided.
 Not decided: statistical quality / independence of rand's generator (trusted dependency).
 """
+import re
 from .. import facts as F
 from ..harness import *
 
@@ -68,6 +76,7 @@ def run(chk):
                 v, d = UNDECIDED, e.cause
             chk.add("C19.provenance", key, v, d, where=where_of(b),
                     sample=dict(obligation=key, draws=it.rng_calls, verdict=v) if n in (3, 8) else None)
+    seed_rule(chk, facts)
     ns = len(facts.raw["statics"])
     chk.add("C19.no-static", "no static item in the crate", PROVED if ns == 0 else UNDECIDED, "%d statics" % ns)
     if chk.tier == "thorough":
@@ -76,3 +85,179 @@ def run(chk):
         chk.add("C19.feature", "random() absent without the rand feature", PROVED if not has else REFUTED, ", ".join(has))
     chk.notes["explanation"] = "bit provenance of random(): every table bit < 2^n is a distinct fresh generator bit, every other bit constant 0; rand itself is trusted"
     chk.notes["n_range"] = [0, nmax]
+
+
+SEEDED_RE = re.compile(r"(SeedableRng::(seed_from_u64|from_seed)$)|(rngs?::(mock::)?\w*Rng\w*::new$)|(Pcg\w*::new$)|(ChaCha\w*::new$)")
+ENTROPY_RE = re.compile(r"(thread_rng$)|(OsRng)|(from_entropy$)|(getrandom)|(rand::random$)|(from_os_rng$)|(ThreadRng)")
+ONCE_TYPES = ("std::sync::OnceLock", "std::sync::LazyLock", "std::cell::OnceCell", "std::cell::LazyCell", "once_cell::", "lazy_static::")
+MUTABLE_TYPES = ("std::sync::atomic::", "std::sync::Mutex", "std::sync::RwLock", "std::cell::Cell", "std::cell::RefCell", "std::cell::UnsafeCell")
+
+
+def callee_path(t):
+    f_ = t.get("func") or {}
+    r_ = f_.get("resolved") or {}
+    return r_.get("path") or f_.get("path") or ""
+
+
+def seed_sources(body, operand):
+    """backward slice of an operand inside one MIR body -> set of source tags"""
+    defs = {}
+    for blk in body["mir"]["blocks"]:
+        for st_ in blk["stmts"]:
+            if st_["k"] == "assign":
+                defs.setdefault(st_["place"]["l"], []).append(("rv", st_["rv"]))
+        t = blk["term"]
+        if t["k"] == "call" and t.get("dest") is not None:
+            defs.setdefault(t["dest"]["l"], []).append(("call", t))
+    nargs = len(body["sig"]["inputs"]) if body.get("sig") else 0
+    out, seen = set(), set()
+
+    def ty_tag(ty):
+        s_ = (ty.get("t") or ty).get("s", "") if ty.get("k") == "ref" else ty.get("s", "")
+        if any(x in s_ for x in MUTABLE_TYPES):
+            return "static-mutable"
+        return "static-once"
+
+    def op_src(op):
+        if op["k"] in ("copy", "move"):
+            local(op["place"]["l"])
+        elif op["k"] == "const":
+            if op.get("static"):
+                tag = "static-mutable" if op.get("static_mut") else ty_tag(op["ty"])
+                out.add((tag, op["static"]))
+            elif op.get("uneval") and (op["uneval"].get("promoted") is not None):
+                out.add(("unknown", "promoted constant"))
+            else:
+                out.add(("const", str(op.get("val"))[:20]))
+        else:
+            out.add(("unknown", op["k"]))
+
+    def local(l):
+        if l in seen:
+            return
+        seen.add(l)
+        if 1 <= l <= nargs:
+            out.add(("param", "argument %d" % l))
+            return
+        for kind, d in defs.get(l, []):
+            if kind == "call":
+                cp = callee_path(d)
+                if ENTROPY_RE.search(cp):
+                    out.add(("entropy", cp))
+                    continue
+                # a write-once cell hands back what it stored the first time, whatever the closure computes
+                if re.search(r"(OnceLock|OnceCell|LazyLock|LazyCell)::<[^>]*>::(get_or_init|get|force|deref|wait)$", cp) or cp.endswith("LazyLock::force"):
+                    if d["args"]:
+                        op_src(d["args"][0])
+                    continue
+                if re.search(r"(time::|Instant|SystemTime|thread::current|ThreadId|process::id|RandomState|DefaultHasher)", cp):
+                    out.add(("varying", cp))
+                    continue
+                if not d["args"]:
+                    out.add(("unknown", "result of " + cp))
+                for a_ in d["args"]:
+                    op_src(a_)
+                if not (cp.startswith("std::") or cp.startswith("core::") or "::wrapping_" in cp):
+                    out.add(("unknown", "through " + cp))
+            else:
+                rv = d
+                k = rv["k"]
+                if k in ("use", "cast", "unary", "shallow_init_box", "repeat"):
+                    op_src(rv["op"] if "op" in rv else rv.get("operand"))
+                elif k in ("ref", "addr_of", "len", "discriminant", "copy_for_deref"):
+                    local(rv["place"]["l"])
+                elif k in ("binary", "checked_binary"):
+                    for o_ in (rv.get("l"), rv.get("r"), rv.get("a"), rv.get("b")):
+                        if isinstance(o_, dict):
+                            op_src(o_)
+                    for o_ in rv.get("ops", []) if isinstance(rv.get("ops"), list) else []:
+                        op_src(o_)
+                elif k == "aggregate":
+                    for o_ in rv.get("ops", []):
+                        op_src(o_)
+                elif k == "tls":
+                    out.add(("thread-local", rv.get("path")))
+                else:
+                    out.add(("unknown", "rvalue " + k))
+        if l not in defs:
+            out.add(("unknown", "local %d" % l))
+    op_src(operand)
+    return out
+
+
+def seed_rule(chk, facts):
+    bodies = list(facts.lib_bodies())
+    by_key = {b["key"]: b for b in bodies}
+    # callers of each local body (calls, closures created, function items mentioned)
+    callers = {}
+    for b in bodies:
+        for blk in b["mir"]["blocks"]:
+            t = blk["term"]
+            if t["k"] == "call":
+                f_ = (t.get("func") or {})
+                r_ = f_.get("resolved") or {}
+                for key in (r_.get("key"), f_.get("key")):
+                    if key in by_key:
+                        callers.setdefault(key, set()).add(b["key"])
+                # closures handed to the callee
+                for a_ in (f_.get("args") or []):
+                    if isinstance(a_, dict) and a_.get("k") == "closure" and a_.get("key") in by_key:
+                        callers.setdefault(a_["key"], set()).add(b["key"] + " via " + callee_path(t))
+            for st_ in blk["stmts"]:
+                if st_["k"] == "assign" and st_["rv"]["k"] == "aggregate" and (st_["rv"].get("agg") or {}).get("k") == "closure":
+                    ck = st_["rv"]["agg"].get("key")
+                    if ck in by_key:
+                        callers.setdefault(ck, set()).add(b["key"])
+    static_keys = {s_["key"] for s_ in facts.raw["statics"]}
+    sites = 0
+    for b in bodies:
+        for bi, blk in enumerate(b["mir"]["blocks"]):
+            t = blk["term"]
+            if t["k"] != "call":
+                continue
+            cp = callee_path(t)
+            if not SEEDED_RE.search(cp) or not t["args"]:
+                continue
+            sites += 1
+            key = "seeded generator built in %s (%s)" % (b["path"], cp.split("::")[-1])
+            srcs = set()
+            for a_ in t["args"]:
+                srcs |= seed_sources(b, a_)
+            tags = {x[0] for x in srcs}
+            # where is the generator built?  process-wide only if every way to reach the body goes through the
+            # initialiser of a static (a static item's body, or a closure given to OnceLock/LazyLock of a static)
+            def scope(k, depth=0, seen=None):
+                seen = seen or set()
+                if k in seen or depth > 6:
+                    return {"unknown"}
+                seen.add(k)
+                if k in static_keys:
+                    return {"process"}
+                bb = by_key.get(k)
+                if bb is not None and "__rust_std_internal_init_fn" in bb["path"]:
+                    return {"thread"}
+                cs = callers.get(k, set())
+                if not cs:
+                    return {"call"}    # a root: public function / not referenced inside the crate
+                res = set()
+                for c in cs:
+                    ck = c.split(" via ")[0]
+                    if " via " in c and re.search(r"(OnceLock|LazyLock|OnceCell|LazyCell|Once)::", c.split(" via ")[1]):
+                        # the closure runs once per cell: process-wide if the cell is a static, else per owner
+                        res |= {"once-cell"}
+                    else:
+                        res |= scope(ck, depth + 1, seen)
+                return res
+            sc = scope(b["key"])
+            what = ", ".join(sorted("%s %s" % x for x in srcs))
+            if "entropy" in tags and not (tags - {"entropy", "const"}):
+                v, d = PROVED, ""
+            elif tags and tags <= {"const", "static-once"} and sc and sc <= {"thread", "call"}:
+                per = "thread" if "thread" in sc else "call"
+                v, d = REFUTED, ("the generator is built once per %s but its seed comes only from %s: every %s replays the same stream, "
+                                 "so the k-th tables drawn by two %ss are equal" % (per, what, per, per))
+            else:
+                v, d = UNDECIDED, "seed sources: %s; built per %s" % (what or "none found", "/".join(sorted(sc)))
+            chk.add("C19.seed", key, v, d, where=where_of(b))
+    chk.add("C19.seed", "generators used by the crate", PROVED if sites == 0 else UNDECIDED,
+            "" if sites == 0 else "%d explicitly seeded generator(s), judged individually above" % sites)
